@@ -1,6 +1,6 @@
 """Llldp (LLDP codec sub-check: C19, C06, C07, C01; C05 does not apply) configuration for ./check"""
 CONF = {
-    'interesting': ['truncated-prefix-of-valid', 'mandatory-tlv', 'consistent-length-cut', 'tlv-length-extreme', 'nine-bit-length', 'mgmt-length-extreme',
+    'interesting': ['truncated-prefix-of-valid', 'mandatory-tlv', 'consistent-length-cut', 'tlv-length-extreme', 'nine-bit-length', 'mgmt-length-extreme', 'org-info-length',
                     'field-extreme', 'error-after-add', 'org-tlv', 'mgmt-address', 'dirty-buffer', 'no-fixlengths', 'odd-payload', 'roundtrip', 'out-of-domain',
                     'decode-error', 'malformed', 'seed'],
     'rule': 'LLDPDUs built TLV by TLV by the harness: mandatory ChassisID/PortID/TTL plus 0..5 of port description, system name/description, capabilities, '
@@ -13,9 +13,9 @@ CONF = {
             'the LLDP frames of layers/*_test.go; a malformed stream; serialized under all option/buffer combinations (the layer is appended) and round-tripped.',
     'assumptions': ['Go slice/copy/append/make semantics as modelled (slices checked against len, stricter than cap)',
                     'gopacket.LayerString/LayerDump/LayerGoString total on non-nil layers (reflective), run on both layers the decoder adds',
-                    'the typed Info decoders (Decode8021, Decode8023, Decode8021Qbg, DecodeMedia, DecodeCisco2, DecodeProfinet) are not modelled'],
+                    'the typed Info decoders (Decode8021, Decode8023, Decode8021Qbg, DecodeMedia, DecodeCisco2, DecodeProfinet) are not modelled: they are called on every decoded packet (panic = C01:render-panic) with organisation-specific TLVs of every OUI/subtype they know and Info of every length'],
     'trusted_base': ['model: coq/Model/LlldpModel.v is a hand transcription of layers/lldp.go:64-110, :769-905'],
     'not_applicable': ['C05: LinkLayerDiscovery has no DecodeFromBytes; decodeLinkLayerDiscovery allocates new layers (C05_lldp_fresh is by construction)',
-                       'C06_lldp_roundtrip_statement is stated, not proved; the round trip is checked by the harness oracle only'],
+                       ],
     'explanation': 'Theorems over all byte strings / layer values about the Gallina model of the LLDP codec; correspondence ties it to layers/lldp.go.',
 }
